@@ -6,7 +6,7 @@ SPEC = dict(
     design_ref="DESIGN.md §3 C15",
     assumptions=[],
     runs=[
-        dict(pkg="./lib/discov/internal", run="^TestVerifC15(Systematic|Histories|Reconnect|GetRetry|EndToEnd)$", timeout=200, timeout_thorough=3000),
+        dict(pkg="./lib/discov/internal", run="^TestVerifC15(Systematic|Histories|Reconnect|TwoStreams|GetRetry|EndToEnd)$", timeout=200, timeout_thorough=3000),
         dict(pkg="./lib/discov/internal", run="^TestVerifC15ReloadInflight$", timeout=200, timeout_thorough=3000),
         dict(pkg="./lib/discov/internal", run="^TestVerifC15Race", race=True, timeout=200, timeout_thorough=3000),
     ],
